@@ -17,7 +17,7 @@ PROPS = ("C04", "C08", "C17")
 
 CLAUSES = {
     "C04": ("c04_verdict", "c04_failfast", "c04_stop_reaches", "c04_testsrun", "c04_text", "c04_exit", "c04_suite", "c04_raised"),
-    "C08": ("c08_once", "c08_degrade_text", "c08_noupgrade", "c08_bytest", "c08_raised"),
+    "C08": ("c08_once", "c08_calls", "c08_degrade_text", "c08_noupgrade", "c08_bytest", "c08_raised"),
     "C17": ("c17_scoped", "c17_observed", "c17_observed_stable", "c17_raised"),
 }
 ACTIONS = ["StartTestRun", "StopTestRun", "Tags", "Time", "StartTest", "Outcome", "StopTest", "SkipAdd", "SkipStop",
@@ -65,6 +65,9 @@ class Stack:
             and not self.below_stream(i)
             and all(self.kinds[l] in OWN_LEAVES for l in self.leaves_below(i))
         )
+
+    def below_buffer(self, i):
+        return any(self.kinds[a] in ("TFR", "E2S", "S2E") for a in self.path(i)[:-1])
 
     def via(self, i):
         return sorted({self.kinds[a] for a in self.path(i)} & {"Multi", "TFR", "E2S", "S2E"})
@@ -206,7 +209,9 @@ def replay(beh, flavour, clauses=None):
                 gm = [(e["e"], e["n"], e["g"], e["v"]) for e in got if e["e"] in ("tags", "time")]
                 em = [(e["e"], sorted(e["n"]), sorted(e["g"]), e["v"]) for e in exp if e["e"] in ("tags", "time")]
                 if gm != em:
-                    out.append(dict(clause="drift_calls", step=step, node=i, expected=em, observed=gm))
+                    # tags()/time() calls forwarded call by call (E2O, Multi, Decor, Tagger) belong to "each call once, in
+                    # order"; what a buffering adapter (TFR, E2S) re-batches is mechanism: drift only
+                    out.append(dict(clause="drift_calls" if st.below_buffer(i) else "c08_calls", step=step, node=i, expected=em, observed=gm))
         for d in out[mark:]:
             d["nulled"] = nulled
             d["startless"] = startless
@@ -478,6 +483,25 @@ def c04_real_tests(rep, kept, tier):
             rel = "raised" if got["started"] == "raised" else "more" if len(got["started"]) > n else "fewer" if len(got["started"]) < n else "stopflag"
             rep.violation("c04_suite", "c04_suite:top=%s:%s:%s" % (st.kinds[0], how, rel), {"behaviour": beh, "tests": "tc", "cfg": cfg, "abstract": abstract(beh)},
                           expected=exp, observed=got)
+    # 3. one test, two problems (body fails, tearDown raises): the summary total is the number of problems = sections
+    summ, nproblems = rr.run_two_problems_one_test()
+    exp = {"ran": 1, "word": "test", "verdict": "FAILED", "failures": 2, "sections_total": 2, "problems": 2}
+    got = {"ran": summ["ran"], "word": summ["word"], "verdict": summ["verdict"], "failures": summ["failures"],
+           "sections_total": sum(summ["sections"]), "problems": nproblems}
+    rep.case(nontrivial_key="two-problems-one-test")
+    rep.traces += 1
+    if got != exp:
+        diff = sorted(k for k in exp if exp[k] != got.get(k))
+        rep.violation("c04_text", "c04_text:two-problems-one-test:%s" % "+".join(diff), {"kinds": ["failure+error in one stdlib test"], "failfast": False, "mode": "two-problems"},
+                      expected=exp, observed=got)
+    # 4. shouldStop read from a second thread while a sibling forwarder is mid-forward (two-thread probe, not TLC-explored)
+    for scenario in ("failfast", "stop-elsewhere"):
+        seen, early = rr.poll_while_forwarding(scenario)
+        rep.case(nontrivial_key="poll-" + scenario)
+        rep.traces += 1
+        if seen != [True]:
+            rep.violation("c04_stop_reaches", "c04_stop_reaches:concurrent-poll:%s:%s" % (scenario, "answered-without-waiting" if early else "wrong-answer"),
+                          {"scenario": scenario, "mode": "concurrent-poll"}, expected=[True], observed={"seen": seen, "answered_before_forward_finished": early})
     rep.extra["testtools_run_programs"] = nprog
     rep.extra["testtools_run_subprocesses"] = nsub
     rep.extra["suites_of_real_tests"] = nsuite
@@ -581,9 +605,9 @@ PLANS = {
     },
     "C04": {
         "quick": [("rs_codedFF.cfg", "FailFastStops", {}), ("rs_expC1.cfg", tc_only, {}), ("rs_expC2.cfg", tc_only, {}),
-                  ("rs_expC3.cfg", tc_only, {}), ("rs_expP.cfg", tc_only, {}), ("rs_simFF.cfg", tc_only, SIMQ)],
+                  ("rs_expC3.cfg", tc_only, {}), ("rs_expP.cfg", tc_only, {}), ("rs_expP1.cfg", tc_only, {}), ("rs_simFF.cfg", tc_only, SIMQ)],
         "thorough": [("rs_codedFF.cfg", "FailFastStops", {}), ("rs_mcC.cfg", NOREPLAY, {}), ("rs_expC1.cfg", tc_only, {}),
-                     ("rs_expC2.cfg", tc_only, {}), ("rs_expC3.cfg", tc_only, {}), ("rs_expC4.cfg", tc_only, {}), ("rs_expP.cfg", tc_only, {}),
+                     ("rs_expC2.cfg", tc_only, {}), ("rs_expC3.cfg", tc_only, {}), ("rs_expC4.cfg", tc_only, {}), ("rs_expP.cfg", tc_only, {}), ("rs_expP1.cfg", tc_only, {}),
                      ("rs_simFF.cfg", tc_only, SIMT), ("rs_sim13.cfg", tc_only, SIMT)],
     },
     "C17": {
@@ -611,6 +635,20 @@ def replay_file(path, pid):
         # testtools.run scenario (c04_exit): run it again and show what comes out
         from . import results_run as rr
 
+        if sc["mode"] == "concurrent-poll":
+            seen, early = rr.poll_while_forwarding(sc["scenario"])
+            print("replay: expected=[True] observed=%r early=%r" % (seen, early))
+            if seen != [True]:
+                print("VIOLATION property=%s replay=%s" % (pid, path))
+                return 1
+            return 0
+        if sc["mode"] == "two-problems":
+            summ, n = rr.run_two_problems_one_test()
+            print("replay: summary=%r problems=%r" % (summ, n))
+            if summ["failures"] != n or sum(summ["sections"]) != n:
+                print("VIOLATION property=%s replay=%s" % (pid, path))
+                return 1
+            return 0
         if sc["mode"] == "subprocess":
             rc, summ, _ = rr.run_subprocess(sc["kinds"], sc["failfast"])
             got = dict(summ, exit=rc)
